@@ -51,7 +51,11 @@ type Run struct {
 	S           Scenario
 	Adversarial bool
 	History     []Action
-	UserLog     []string
+	// Effective is History without the user actions that were skipped because they fall into a
+	// listed finding's input class; replaying it needs no exclusion logic.
+	Effective []Action
+	skipped   bool
+	UserLog   []string
 }
 
 func NewRun(s Scenario) (*Run, error) {
@@ -99,8 +103,13 @@ func (r *Run) Apply(a Action) {
 	case "restart":
 		w.Restart()
 	case "user":
+		r.skipped = false
 		r.user(a)
+		if r.skipped {
+			return
+		}
 	}
+	r.Effective = append(r.Effective, a)
 }
 
 func mod(i, n int) int {
@@ -171,14 +180,17 @@ func (r *Run) user(a Action) {
 		}
 		if a.Arg == UserRollback && KnownOpen[FindingRevertBeforeObserved] && os.Getenv("VERIF_REPLAY_STRICT") == "" && r.revertBeforeObserved() {
 			r.W.Excluded[FindingRevertBeforeObserved]++
+			r.skipped = true
 			return
 		}
 		if r.releaseDuringCancel() {
 			r.W.Excluded[FindingReleaseDuringCancel]++
+			r.skipped = true
 			return
 		}
 		if a.Arg == UserRollback && r.exitBeforeBatchRelease() {
 			r.W.Excluded[FindingExitBeforeBatchRelease]++
+			r.skipped = true
 			return
 		}
 		templateOf(o).Spec.Containers[0].Image = "app:" + ver
@@ -206,6 +218,7 @@ func (r *Run) user(a Action) {
 		}
 		if r.scaleBelowTrafficStep(int(n)) {
 			r.W.Excluded[FindingScaleBelowTrafficStep]++
+			r.skipped = true
 			return
 		}
 		*replicasPtr(o) = pointer.Int32(n)
@@ -231,6 +244,7 @@ func (r *Run) user(a Action) {
 		}
 		if r.jumpToSelfWithPlanEdit(ro, int32(a.N), false) {
 			r.W.Excluded[FindingPlanEditJumpToSelf]++
+			r.skipped = true
 			return
 		}
 		ro.Status.GetSubStatus().NextStepIndex = int32(a.N)
@@ -244,6 +258,7 @@ func (r *Run) user(a Action) {
 		}
 		if a.Arg == UserDisable && r.exitBeforeBatchRelease() {
 			r.W.Excluded[FindingExitBeforeBatchRelease]++
+			r.skipped = true
 			return
 		}
 		old := ro.DeepCopy()
@@ -263,6 +278,7 @@ func (r *Run) user(a Action) {
 			}
 			if sub := ro.Status.GetSubStatus(); sub != nil && r.jumpToSelfWithPlanEdit(ro, sub.NextStepIndex, true) {
 				r.W.Excluded[FindingPlanEditJumpToSelf]++
+			r.skipped = true
 				return
 			}
 			i := mod(a.N, len(steps))
@@ -298,6 +314,7 @@ func (r *Run) user(a Action) {
 		}
 		if r.exitBeforeBatchRelease() {
 			r.W.Excluded[FindingExitBeforeBatchRelease]++
+			r.skipped = true
 			return
 		}
 		if err := cli.Delete(ctx, ro); err == nil {
